@@ -50,6 +50,7 @@ func nameFromMetadata(f string, p *dec.Package) string {
 func c15(run *ev.Run, tier string) {
 	n := ncases(300, 5000, tier)
 	run.Rule = "part 1: generated (name, version, prerelease, metadata, release, epoch, GOARCH or format-specific arch override) x 5 formats: ConventionalFileName(info) must equal the conventional name composed from the metadata DECODED out of Package(info) on the same settings object (format's naming convention; epochs are not part of file names), must end in the conventional extension, and the package built after asking for the name must be byte-identical to one built from fresh settings. part 2: the built nfpm binary with target = file / existing directory / symlink to a directory / empty, with and without -p, extensions .deb/.rpm/.apk/.ipk: the file must appear exactly at the requested path or under the conventional name in the target directory / cwd, and the packager is inferred from the extension only when -p is absent. Also: releases beyond 2^32, hyphens outside the prerelease, verbatim versions starting with 'v', platform other than linux, abi_version; CLI: rebuild over a longer file, version / arch from the process environment, failing builds leave nothing behind, directory targets named like package files. non-trivial = case with a prerelease or a translated architecture; distinct = component shape"
+	run.Rule += "; names a format refuses or respells, names and releases with a percent sign, platforms next to architectures that begin with them, format-specific architecture overrides that are GOARCH keys - each packaged with and without asking for the name first and compared with the metadata"
 	var names, cli int64
 	arches := []string{"amd64", "386", "arm64", "arm5", "arm6", "arm7", "mips64le", "mipsle", "ppc64le", "s390", "all", "mips", "riscv64", "arm"}
 	dir := newWorkDir("c15")
